@@ -91,8 +91,9 @@ VAll == {V(<<s1, s2>>, <<q1, q2>>, <<l>>, <<t>>, e) :
 VPad == {V(<<SPs>>, <<FALSE>>, <<l>>, <<t>>, e) : l \in Pads \cup {<<32, 9>>}, t \in Pads \cup {<<9, 32>>},
                                                     e \in IF Thorough THEN {"min", "max", "odd", "even"} ELSE {"max", "odd"}}
 VMid == {V(<<s1, s2>>, <<q1, q2>>, <<l, <<>>>>, <<<<>>, t>>, "odd") :
-           s1 \in SepAll, s2 \in (IF Thorough THEN {SPs, <<9, 32>>} ELSE {<<9, 32>>}), q1 \in BOOLEAN, q2 \in BOOLEAN,
-           l \in Pads, t \in (IF Thorough THEN {<<>>, SPs} ELSE {SPs})}
+           s1 \in SepAll, s2 \in {<<9, 32>>}, q1 \in BOOLEAN, q2 \in BOOLEAN, l \in Pads, t \in {SPs}}
+VMidT == {V(<<s1, s2>>, <<q1, q2>>, <<l, <<>>>>, <<<<>>, t>>, "odd") :
+           s1 \in SepAll, s2 \in {SPs, <<9, 32>>}, q1 \in BOOLEAN, q2 \in BOOLEAN, l \in Pads, t \in {<<>>, SPs}}
 
 \* ------------------------------------------------------------------ plain trees
 Fn1 == <<102>>          \* f
@@ -134,7 +135,7 @@ D1Qt == Calls({Fn1}, AtomsMin \cup QtAtoms \cup Calls({Fn2}, QtAtoms \cup {LitN(
 D1Three == Calls({Fn1}, AtomsMin, 3)
 \* depth 2: nested calls in any argument position
 D2 == Calls({Fn1}, AtomsFew \cup D1Few, 2)
-D2Big == Calls({Fn1, Fn2}, AtomsFew \cup Calls({Fn2, Fn3}, AtomsFew, 2), 2)
+D2Big == Calls({Fn1}, AtomsFew \cup Calls({Fn2, Fn3}, AtomsFew, 2), 2)
 \* depth 3, one shape per position
 D3 == Calls({Fn1}, {LitN(<<Ca>>)} \cup Calls({Fn2}, {GrpN(1), LitN(<<>>)} \cup Calls({Fn1}, {KeyN(<<107>>), LitN(<<Ca, SP, C1>>)}, 1), 2), 2)
 
@@ -146,7 +147,6 @@ E1 == Calls({Fn1, FnX, FnY}, AtomsErr, 2)
 \* two different malformations inside one argument
 E3 == Calls({Fn1}, Calls({Fn2}, {EmptyN, CallN(FnX, <<LitN(<<Ca>>)>>), LitN(<<Ca>>)}, 2), 1)
 E2 == Calls({Fn1, FnX}, AtomsMin \cup {EmptyN} \cup Calls({Fn2, FnX}, AtomsErr, 1), 2)
-HasErrNode(tpl, v) == ErrUpper(AnnT(tpl, v)) # {}
 
 \* ------------------------------------------------------------------ groups of cases
 (* kind "rt"  : x = annotated well-formed template           law RoundTripOK     *)
@@ -161,6 +161,7 @@ KindOf(g) == CASE g \in {"drop", "errnode"} -> "err" [] g \in {"escmode", "escal
 
 EscAlpha == {Ca, LBR, RBR, BSL, QUO, SP, 110, 116}           \* a { } \ " space n t
 EscAlpha2 == EscAlpha \cup {LF, TAB, CR, 114, 233}
+EscAlpha4 == {Ca, LBR, RBR, BSL, QUO, 110, LF}
 AllFlags(s) == {e \in [1..Len(s) -> {0, 1}] : \A i \in 1..Len(s) : EscOK(s[i], e[i])}
 TotAlpha == {Ca, LBR, RBR, BSL, QUO, SP}
 VOdd == CHOOSE v \in VBase : v.esc = "odd"
@@ -168,7 +169,7 @@ VEven == CHOOSE v \in VBase : v.esc = "even"
 
 \* plain templates of a tree group
 Trees(g) ==
-  CASE g = "simple"  -> Wrap(Simple, TopLits, {<<Ca>>, <<RBR>>, <<LBR>>})
+  CASE g = "simple"  -> Wrap(Simple, TopLits, {<<Ca>>, <<RBR>>, <<LBR>>, <<SP>>})
     [] g = "d1"      -> {<<x>> : x \in IF Thorough THEN D1All ELSE Calls({Fn1, Fn3}, AtomsFew, 2)}
     [] g = "d1all"   -> {<<x>> : x \in Calls({Fn1}, AtomsMin, 2)}
     [] g = "d1wrap"  -> Wrap(Calls({Fn2}, AtomsMin, 2), TopLits, IF Thorough THEN TopLits ELSE {<<Ca>>, <<RBR>>, <<BSL, QUO, 116>>, <<LBR>>})
@@ -181,16 +182,18 @@ Trees(g) ==
                         \cup {<<x, LitN(m), y>> : x \in {GrpN(1), CallN(Fn1, <<LitN(<<Ca>>), GrpN(0)>>)},
                                                    m \in TopLits, y \in {KeyN(<<107>>), CallN(Fn2, <<KeyN(<<107>>)>>)}}
     [] g = "drop"    -> Wrap(D1Few \cup Simple, {<<Ca>>, <<RBR>>}, {<<Ca>>, <<RBR, SP>>})
-                        \cup {<<x>> : x \in D2 \cup D3}
+                        \cup {<<x>> : x \in D3 \cup (IF Thorough THEN D2 ELSE {})}
                         \cup {<<GrpN(1), LitN(<<Ca, RBR>>), CallN(Fn1, <<KeyN(<<107>>), LitN(<<Ca>>)>>), LitN(<<RBR>>), KeyN(<<107>>)>>}
     [] g = "errnode" -> Wrap(E1 \cup {EmptyN}, {<<Ca>>}, {<<RBR>>}) \cup {<<x>> : x \in E2 \cup E3}
 
 \* sub-keys of a group: a case set is expanded per (group, sub-key) so that TLC workers share the work
 Subs(g) ==
   CASE g = "simple"  -> VPad
-    [] g = "d1"      -> VBase \cup VMid
+    [] g = "d1"      -> VBase \cup VMid \cup (IF Thorough THEN {v \in VMidT : v.lead[1] = <<>>} ELSE {})
     [] g = "d1all"   -> VAll
-    [] g \in {"d1wrap", "d2big", "two", "drop", "qt"} -> VBase
+    [] g \in {"d1wrap", "two", "qt"} -> VBase
+    [] g = "d2big"   -> {VOdd, VEven, CHOOSE v \in VBase : v.seps = <<TBs>>}
+    [] g = "drop"    -> {VOdd, VEven}
     [] g \in {"d1three", "d2", "d3"} -> VBase \cup (IF Thorough THEN VMid ELSE {})
     [] g = "errnode" -> {VOdd, VEven}
     [] g = "escmode" -> {"min", "max", "odd"}
@@ -203,10 +206,12 @@ StrsFrom(alpha, n, k) == IF k = 0 THEN {<<>>} ELSE {<<k>> \o s : s \in Strs(alph
 Cases(g, k) ==
   CASE KindOf(g) = "rt" -> {AnnT(t, k) : t \in Trees(g)}
     [] g = "drop"    -> UNION {Drops(AnnT(t, k)) : t \in Trees(g)}
-                        \cup UNION {UNION {Drops(d) : d \in Drops(AnnT(<<x>>, k))} : x \in D3}      \* two braces missing
+                        \cup (IF k = VOdd THEN UNION {UNION {Drops(d) : d \in Drops(AnnT(<<x>>, k))} : x \in D3} ELSE {})   \* two braces missing
     [] g = "errnode" -> {a \in {AnnT(t, k) : t \in Trees(g)} : ErrUpper(a) # {}}
     [] g = "escmode" -> {<<s, EscFlags(s, k)>> : s \in Strs(EscAlpha, IF Thorough THEN 5 ELSE 4)}
-    [] g = "escall"  -> UNION {{<<s, e>> : e \in AllFlags(s)} : s \in StrsFrom(EscAlpha2, IF Thorough THEN 4 ELSE 3, k)}
+    [] g = "escall"  -> UNION {{<<s, e>> : e \in AllFlags(s)} :
+                                 s \in StrsFrom(EscAlpha2, 3, k)
+                                       \cup (IF Thorough /\ k \in EscAlpha4 THEN StrsFrom(EscAlpha4, 4, k) ELSE {})}
     [] g = "total"   -> StrsFrom(TotAlpha, IF Thorough THEN 6 ELSE 5, k)
 
 Law(g, x) ==
